@@ -23,7 +23,8 @@ TReset == /\ pi <= Len(Progs) /\ l = Len(Steps)
           /\ pi' = pi + 1 /\ l' = 0 /\ last' = <<>> /\ prev' = None
 Next == TStep \/ TReset
 
-Report(kind, e) == PrintT(<<"BADSTEP", Progs[pi].id, kind, l, e>>)
+\* one line per finding (TLC wraps long values over several lines): id, kind, position in the step list
+Report(kind, e) == PrintT(<<"BADSTEP", Progs[pi].id, kind, l>>)
 \* the step just consumed is explained by the table
 StepConforms ==
   (pi <= Len(Progs) /\ l >= 1) =>
